@@ -213,7 +213,7 @@ def _tree_behaviours(ctx, nsim, tiny=True):
     if len(tiny2) != 288:
         raise ToolError("GenTreeTiny2 produced %d behaviours (expected 288)" % len(tiny2))
     if not tiny:
-        tiny2 = tiny2[::24]        # callers that only want a small set (crash enumeration) get a 12-behaviour slice
+        tiny2 = tiny2[::48]        # callers that only want a small set (crash enumeration) get a 6-behaviour slice
     beh = (rt.printed("B") if rt else []) + tiny2 + rs.printed("B")
     if len(beh) < nsim:
         raise ToolError("tree behaviour generation produced only %d behaviours" % len(beh))
@@ -303,7 +303,7 @@ def C19(ctx):
     if rb.violated != "Consistent":
         raise ToolError("negative control failed: the 'direct' commit program should violate Consistent")
     nproc = 8
-    beh = _tree_behaviours(ctx, 16 if q else 160, tiny=False)
+    beh = _tree_behaviours(ctx, 10 if q else 160, tiny=False)
     ctx.sample({"behaviour_step": beh[0][1]})
     chunks = [beh[i::nproc] for i in range(nproc)]
     d = ctx.wpath("crash")
